@@ -6,8 +6,9 @@
      - the default calling-convention table (lib/analysis/calling_convention.rs, all seven fields),
      - the answers of the query functions (argument_type 0..12, is_preserved / is_trashed on every
        register of the universe and of the table),
-     - the translator's register table (hook `verif_registers()`), the non-temporary scalars and the
-       address widths that occur in IL lifted by `Architecture::translator()`, an endianness probe,
+     - the translator's register table (hook `verif_registers()`), the scalars and the address widths
+       that occur in IL lifted by `Architecture::translator()`, the scalars written by the IL of each
+       stack instruction (push / pop / call / ret / frame set-up), an endianness probe,
      - what `loader::Elf::new` answers for an ELF header with this architecture's machine / data. *)
 From Coq Require Import ZArith List Bool String Lia.
 From Falcon Require Import Base.Res.
@@ -55,7 +56,9 @@ Record dump := {
   d_is_preserved : list (option bool);          (* observed, parallel to d_queried *)
   d_is_trashed : list (option bool);
   d_table : list reg;                           (* translator register table (verif_registers) *)
-  d_seen : list reg;                            (* non-temporary scalars in lifted IL *)
+  d_seen : list reg;                            (* every scalar in lifted IL (temporaries included) *)
+  d_stack_ops : list (string * list reg);       (* per lifted stack instruction (push/pop/call/ret/...): the
+                                                   scalars its IL writes *)
   d_addr_widths : list Z;                       (* widths of load/store addresses in lifted IL *)
   d_probe : probe;                              (* byte order in which the translator decodes *)
   d_elf : Z * endian;                           (* (e_machine, EI_DATA) of the header given to the loader *)
@@ -152,6 +155,10 @@ Definition is_trashed (c : cc) (r : reg) : option bool :=
   if mem_reg r (trashed c) then Some true
   else if mem_reg r (preserved c) then Some false
   else None.
+
+(* compiler-generated temporaries, by pattern: `temp_<n>` (ControlFlowGraph::temp, Scalar::temp) and
+   `temp_0x<address>_<k>` (x86 semantics) *)
+Definition is_temp (n : string) : bool := String.prefix "temp_" n.
 
 (* every register the table names *)
 Definition named_regs (c : cc) : list reg :=
